@@ -30,6 +30,10 @@ impl<V> SlotMap<V> {
         ensures !old(self)@.dom().contains(k), final(self)@ == old(self)@.insert(k, value),
     { unimplemented!() }
     #[verifier::external_body]
+    pub fn get(&self, k: LayerKey) -> (r: Option<&V>)
+        ensures r == (if self@.dom().contains(k) { Some(&self@[k]) } else { None::<&V> }),
+    { unimplemented!() }
+    #[verifier::external_body]
     pub fn get_mut(&mut self, k: LayerKey) -> (r: Option<&mut V>)
         ensures !old(self)@.dom().contains(k) ==> r is None && final(self)@ == old(self)@,
             old(self)@.dom().contains(k) ==> r is Some && *r->0 == old(self)@[k] && final(self)@ == old(self)@.insert(k, *final(r->0)),
@@ -97,6 +101,29 @@ impl Layers {
 //|     ensures !old(self).slots@.dom().contains(r), final(self).slots@ == old(self).slots@.insert(r, layer),
 //|         final(self).nums@ == old(self).nums@.insert(layer.layernum, r),
 //|         final(self).names@ == (if layer.name is Some { old(self).names@.insert(layer.name->Some_0, r) } else { old(self).names@ }),
+//@ end
+//@ fn layout21raw/src/data.rs :: impl Layers :: fn nextnum
+//@   ret r
+//@   spec
+//|     requires keys_ok(),
+//|     // the lowest layer number not filed yet (numbers 0 .. i16::MAX - 1 are tried), an error when all of them are taken
+//|     ensures r is Ok ==> 0 <= r->Ok_0 < i16::MAX && !self.nums@.dom().contains(r->Ok_0) && forall|j: i16| 0 <= j < r->Ok_0 ==> #[trigger] self.nums@.dom().contains(j),
+//|         r is Err ==> forall|j: i16| 0 <= j < i16::MAX ==> #[trigger] self.nums@.dom().contains(j),
+//@   loop 1
+//|             invariant keys_ok(), forall|j: i16| 0 <= j < k ==> #[trigger] self.nums@.dom().contains(j),
+//@ end
+//@ fn layout21raw/src/data.rs :: impl Layers :: fn keyname
+//@   ret r
+//@   sub R5 /name: impl Into<String>/ => name: String
+//@   sub R5 /self\.names\.get\(&name\.into\(\)\)\.map\(\|x\| x\.clone\(\)\)/ => vp_opt_cloned(self.names.get(&name))
+//@   spec
+//|     requires keys_ok(),
+//|     ensures r == (if self.names@.dom().contains(name) { Some(self.names@[name]) } else { None::<LayerKey> }),
+//@ end
+//@ fn layout21raw/src/data.rs :: impl Layers :: fn get
+//@   ret r
+//@   spec
+//|     ensures r == (if self.slots@.dom().contains(key) { Some(&self.slots@[key]) } else { None::<&Layer> }),
 //@ end
 //@ fn layout21raw/src/data.rs :: impl Layers :: fn keynum
 //@   ret r
@@ -176,6 +203,31 @@ impl ProtoImporter {
 //|     // numbers outside the 16-bit range are errors (never truncated); otherwise the pair is looked up as such
 //|     ensures table_wf(final(self).layers), (i16::MIN <= player.number <= i16::MAX && i16::MIN <= player.purpose <= i16::MAX) <==> r is Ok,
 //|         r is Ok ==> looked_up(old(self).layers, final(self).layers, player.number as i16, player.purpose as i16, r->Ok_0.0, r->Ok_0.1),
+//@ end
+}
+// =====================================================================================================
+// the GDSII exporter's layer lookup (REAL body), the exporter reduced to its library's layer table
+// =====================================================================================================
+/// model of layout21utils Unwrapper for Option: Some(t) => Ok(t), None => the helper's error
+pub trait Unwrapper<T> { fn unwrapper<H, M>(self, helper: &H, msg: M) -> (r: Result<T, LayoutError>); }
+impl<T> Unwrapper<T> for Option<T> {
+    fn unwrapper<H, M>(self, helper: &H, msg: M) -> (r: Result<T, LayoutError>)
+        ensures self is Some ==> r == Ok::<T, LayoutError>(self->0), self is None ==> r is Err,
+    { match self { Some(t) => Ok(t), None => Err(LayoutError { }) } }
+}
+// R5: `lib.layers: Ptr<Layers>` as the table itself, `read()?` as the shared borrow (lock-poison path dropped: ASSUMPTION)
+pub struct Library { pub name: String, pub layers: Layers }
+pub struct GdsExporter<'lib> { pub lib: &'lib Library }
+impl<'lib> GdsExporter<'lib> {
+//@ fn layout21raw/src/gds.rs :: impl<'lib> GdsExporter<'lib> :: fn export_layerspec
+//@   ret r
+//@   sub R5 /let layers = self\.lib\.layers\.read\(\)\?;/ => let layers = &self.lib.layers;
+//@   spec
+//|     requires keys_ok(),
+//|     // the layer's own number and the number filed for the purpose on that layer; an undefined key or purpose is an error
+//|     ensures final(self).lib == old(self).lib,
+//|         r is Ok <==> old(self).lib.layers.slots@.dom().contains(*layer) && old(self).lib.layers.slots@[*layer].nums@.dom().contains(*purpose),
+//|         r is Ok ==> r->Ok_0.layer == old(self).lib.layers.slots@[*layer].layernum && r->Ok_0.xtype == old(self).lib.layers.slots@[*layer].nums@[*purpose],
 //@ end
 }
 proof fn canary_table(l: Layers) requires table_wf(l), l.nums@.dom().contains(3i16) ensures false {}
